@@ -47,6 +47,12 @@ pub fn gens<G: CurveTag>(kind: u8, party: u32, n: usize) -> Vec<G> {
     })
 }
 
+/// same derivation without the per-thread cache (for very many parties)
+pub fn gens_uncached<G: CurveTag>(kind: u8, party: u32, n: usize) -> Vec<G> {
+    let mut rng = ChaChaRng::from_seed(chain_seed(kind, party));
+    (0..n).map(|_| sample::<G>(&mut rng)).collect()
+}
+
 pub fn sample<G: AffineRepr>(rng: &mut ChaChaRng) -> G {
     use ark_std::UniformRand;
     G::rand(rng)
